@@ -23,6 +23,7 @@ from contracts.c14 import unit_encode, unit_charliteral  # noqa
 from contracts.c15 import unit_rad50  # noqa
 from contracts.deferred_c import unit_awaiting, unit_construct, unit_wait, unit_promise  # noqa
 from contracts.compiler_c import unit_compile_block, unit_set_link_address  # noqa
+unit_include_c = compiler_c.unit_include
 from contracts.symbols_c import unit_define, unit_resolve, unit_resolve_register  # noqa
 from contracts.meta_c import unit_zero_size, unit_include, unit_insert_file, unit_repeat  # noqa
 from contracts.cli_c import unit_main_cli  # noqa
@@ -280,6 +281,8 @@ def units(tier):
         us.append(("operator[%s]" % n, "unit_prefix_body", dict(name=n)))
     for mode in ("value", "not_ready", "RecoverableError", "DeferredCycle"):
         us.append(("construct[%s]" % mode, "unit_construct", dict(mode=mode, sized=True)))
+    for st_ in (False, True):
+        us.append(("compile_include[%s,raise]" % st_, "unit_include_c", dict(settles=st_, kind="raise")))
     for ctxt in ("file", "repeat"):
         for bs in (False, True):
             us.append(("compile_block[%s,%s]" % (ctxt, bs), "unit_compile_block", dict(context=ctxt, base_settled=bs, start_kind="promise")))
